@@ -12,6 +12,7 @@ TAGS = {
     "Mod": 45, "Mult": 46, "MatMult": 47, "BitOr": 48, "Pow": 49, "RShift": 50, "Sub": 51, "Div": 52,
     "BitXor": 53, "Invert": 54, "UAdd": 55, "USub": 56, "NotIn": 57, "Assign": 58, "For": 59, "With": 60,
     "AsyncFor": 61, "AsyncWith": 62, "AnnAssign": 63, "AugAssign": 64, "BoolOp": 65, "Or": 66, "And": 67,
+    "Pass": 68,
 }
 UNKNOWN_BASE = 1000
 
